@@ -65,7 +65,13 @@ check)
 replay)
     f="${2:?replay file}"
     if grep -q '"engine"' "$f" 2>/dev/null && [ -x "$VERIF_DIR/extra/replay.sh" ]; then exec "$VERIF_DIR/extra/replay.sh" "$f"; fi
-    bin=$(main_bin) || exit 2
+    # a violation found by another built variant of the simulator is replayed by that variant
+    variant=$(sed -n 's/.*"variant": *"\([^"]*\)".*/\1/p' "$f" | head -1)
+    if [ -n "$variant" ] && [ "$variant" != rt ]; then
+        bin=$("$VERIF_DIR/variants.sh" build "$variant") || exit 2
+    else
+        bin=$(main_bin) || exit 2
+    fi
     exec "$bin" replay "$f"
     ;;
 selftest)
